@@ -305,6 +305,13 @@ Agg(op, vals, dev) ==
     [] OTHER -> Assert(FALSE, <<"unknown aggregate", op>>)
 
 -----------------------------------------------------------------------------
+(* Does a value contain an unresolved tie? *)
+RECURSIVE HasAny(_)
+HasAny(v) == CASE v[1] = "any" -> TRUE
+               [] v[1] \in {"l", "m"} -> \E i \in 1..Len(v[2]) : HasAny(v[2][i])
+               [] v[1] = "r" -> \E i \in 1..Len(v[2]) : HasAny(v[2][i][2])
+               [] OTHER -> FALSE
+
 (* Matching an observed value against an expected one. *)
 RECURSIVE VMatch(_, _)
 VMatch(e, o) ==
